@@ -63,8 +63,8 @@ ASSUMPTIONS = [
     'attributes, standard_name, units, axis) are str',
     'the optional UGRID connectivity variables generated are valid by construction (the dimension checks of '
     'Mesh2DTopology.has_valid_* are an abstract predicate of the model, C10 owns them)',
-    'UGRID node / face coordinates are generated as data variables, never as xarray coordinates (finding F8 of '
-    'C06 / C10: Mesh2DTopology looks them up in data_vars only)',
+    'the UGRID mesh variable and connectivity tables are data variables (Mesh2DTopology looks them up in data_vars); '
+    'node / face coordinates are generated both as data variables and as xarray coordinates',
     'attribute ORDER is part of the key (marshal serialises the dict in order); reordering attributes is outside '
     'the property\'s quantifier and is not judged by the oracle (only counted)',
 ]
@@ -260,8 +260,9 @@ def nongeo_edit_sets(rng, ev: Eval) -> list:
         E.append(('remove_all_vars', [{'op': 'remove_var', 'name': n} for n in data_vars]))
         E.append(('var_attr', [{'op': 'var_attr', 'name': dv, 'key': 'note', 'value': 'changed ' * rng.randint(1, 3)}]))
         E.append(('rename_var', [{'op': 'rename_var', 'name': dv, 'to': dv + '_renamed'}]))
-    E.append(('add_var:leading', [{'op': 'prepend_var', 'name': 'lead', 'dim': 'lead_dim', 'n': rng.choice([2, 2, 3]),
-                                   'attrs': {'units': '1'}}]))
+    for n in (2, 3):      # as the FIRST variable, on a new leading dimension (of size two: see SIG_TWO)
+        E.append(('add_var:leading', [{'op': 'prepend_var', 'name': 'lead', 'dim': 'lead_dim', 'n': n,
+                                       'attrs': {'units': '1'}}]))
     E.append(('time_steps', [{'op': 'time_steps', 'n': rng.choice([1, 2, 4, 5])}]))
     E.append(('time_coord', [{'op': 'time_coord', 'start': float(rng.randint(0, 9)), 'step': 0.5}]))
     E.append(('gattr_add', [{'op': 'gattr', 'key': 'institution', 'value': 'x' * rng.randint(1, 40)}]))
@@ -280,10 +281,13 @@ def nongeo_edit_sets(rng, ev: Eval) -> list:
     if gdims and not shoc:      # ShocSimple finds its coordinates BY the dimension names (j, i)
         d = rng.choice(gdims)
         E.append(('rename_dim:geometry', [{'op': 'rename_dim', 'dim': d, 'to': 'renamed_' + d}]))
-    if state['conv'] != 'ugrid':        # UGRID looks its variables up in data_vars only (F8, owned by C06/C10)
-        names = [n for n in state['expected'] if n not in ds.dims]
-        E.append(('set_coords', [{'op': 'set_coords', 'names': names}]))
-        E.append(('reset_coords', [{'op': 'reset_coords', 'names': names}]))
+    names = [n for n in state['expected'] if n not in ds.dims]
+    if state['conv'] == 'ugrid':
+        # the mesh variable and the connectivity tables must stay data variables (Mesh2DTopology looks them up in
+        # data_vars); the node / face coordinate variables may be held either way
+        names = [n for n in names if n.rsplit('_', 1)[-1] in ('x', 'y')]
+    E.append(('set_coords', [{'op': 'set_coords', 'names': names}]))
+    E.append(('reset_coords', [{'op': 'reset_coords', 'names': names}]))
     E.append(('chunk', [{'op': 'chunk'}]))
     E.append(('deep_copy', [{'op': 'copy', 'deep': True}]))
     return E
@@ -606,8 +610,7 @@ def base_cases(ctx, rng) -> list:
         conv = G.CONVS[d % len(G.CONVS)]
         kw = {}
         if conv == 'ugrid':
-            # node / face coordinates as data variables: F8 (coordinates ignored / KeyError) belongs to C06, C10
-            kw = {'coords_as': 'vars', 'face_coords': rng.choice([None, 'vars'])}
+            kw = {'coords_as': rng.choice(['vars', 'coords']), 'face_coords': rng.choice([None, 'vars', 'coords'])}
             two_dim = rng.choice(['Two', 'Two', 'nMesh2_two'])
             if d == G.CONVS.index('ugrid'):
                 # the first UGRID base always has edge tables on a size-2 dimension that is not called 'Two'
@@ -643,6 +646,27 @@ def run(ctx) -> None:
     rng = ctx.rng
     items: list = []
     t0 = time.time()
+
+    # ---- corpus: minimised inputs of findings that were repaired, run first on every run ------------
+    corpus_dir = os.path.join(os.path.dirname(os.path.dirname(os.path.abspath(__file__))), 'corpus', 'c16')
+    for fn in sorted(os.listdir(corpus_dir)) if os.path.isdir(corpus_dir) else []:
+        if not fn.endswith('.json'):
+            continue
+        with open(os.path.join(corpus_dir, fn)) as f:
+            entry = json.load(f)
+        a, e = Eval(entry['base']), Eval(entry['edited'])
+        ctx.count('corpus')
+        ctx.evaluated()
+        ctx.nontrivial(('corpus', fn))
+        desc = {'base': entry['base'], 'edited': entry['edited'], 'expect': entry['expect'], 'kind': 'corpus:' + fn}
+        same = a.ok and e.ok and a.key == e.key
+        if not (a.ok and e.ok) or same != (entry['expect'] == 'same'):
+            ctx.oracle_fail(entry['signature'], desc,
+                            f"corpus {fn}: keys {a.key or a.error} / {e.key or e.error}, the property demands {entry['expect']}"
+                            f" (inventories {a.names} / {e.names})")
+        else:
+            for x, c in ((a, entry['base']), (e, entry['edited'])):
+                items.append((x.stream_line(), x.stream_out(), {'case': c, 'op': 'stream'}))
 
     # ---- the three helpers, called directly -------------------------------------------------
     items += direct_items(ctx, rng)
